@@ -323,6 +323,10 @@ class Interp:
             for op, rn in zip(node.ops, node.comparators):
                 right = self.eval(rn)
                 r = self.domain.compare(op, left, right, node)
+                if r is not NotImplemented and r is not Nondet and not isinstance(r, bool):
+                    if len(node.ops) == 1:
+                        return r           # a domain value (e.g. an element-wise mask)
+                    raise AnalysisError("chained comparison of vector values in %s" % src(node))
                 if r is NotImplemented:
                     if isinstance(op, (ast.Is, ast.IsNot)) and (left is None or right is None) and left is not OPAQUE and right is not OPAQUE:
                         r = (left is right) if isinstance(op, ast.Is) else (left is not right)
